@@ -11,38 +11,44 @@ bound so far.  The machine is a stack of frames so that invariants can be stated
 -/
 namespace EoVerif.Imp
 
+/-- a dotted module name as its list of segments: `eolib.protocol.net` is `["eolib", "protocol", "net"]` -/
+abbrev MName := List String
+
+def MName.dotted (m : MName) : String := ".".intercalate m
+def MName.isEolib (m : MName) : Bool := m.head? == some "eolib"
+
 inductive Obj where
   /-- the module object of that dotted name -/
-  | module (name : String)
+  | module (name : MName)
   /-- the class / function / constant defined as `name` in module `home` -/
-  | defn (home : String) (name : String)
+  | defn (home : MName) (name : String)
   /-- something from outside the package (standard library …) -/
   | ext (tag : String)
   deriving DecidableEq, Repr, Inhabited
 
 inductive Stmt where
   /-- `from target import *` -/
-  | star (target : String)
+  | star (target : MName)
   /-- `from target import a as x, b as y` -/
-  | fromImp (target : String) (names : List (String × String))
+  | fromImp (target : MName) (names : List (String × String))
   /-- `import target` (binds the top-level package) / `import target as x` -/
-  | imp (target : String) (asName : Option String)
+  | imp (target : MName) (asName : Option String)
   /-- `class name` / `def name` / `name = …` at module level -/
   | define (name : String)
   /-- `__all__ = [...]` -/
   | setAll (names : List String)
   /-- `name = sys.modules[target]` -/
-  | rebind (name : String) (target : String)
+  | rebind (name : String) (target : MName)
   deriving DecidableEq, Repr, Inhabited
 
 structure ModSrc where
-  name : String
+  name : MName
   body : List Stmt
   deriving DecidableEq, Repr, Inhabited
 
 abbrev Graph := List ModSrc
 
-def Graph.src? (g : Graph) (n : String) : Option ModSrc := List.find? (·.name == n) g
+def Graph.src? (g : Graph) (n : MName) : Option ModSrc := List.find? (·.name == n) g
 
 structure ModState where
   ns : List (String × Obj) := []
@@ -55,48 +61,44 @@ def nsSet (ns : List (String × Obj)) (k : String) (v : Obj) : List (String × O
 
 structure St where
   /-- `sys.modules` -/
-  mods : List (String × ModState) := []
+  mods : List (MName × ModState) := []
   /-- first error (`ModuleNotFoundError`, `ImportError`, `KeyError`), if any -/
   err : Option String := none
   deriving DecidableEq, Repr, Inhabited
 
-def St.mod? (s : St) (m : String) : Option ModState := (s.mods.find? (·.1 == m)).map (·.2)
-def St.loaded (s : St) (m : String) : Bool := s.mods.any (·.1 == m)
-def St.setMod (s : St) (m : String) (ms : ModState) : St :=
+def St.mod? (s : St) (m : MName) : Option ModState := (s.mods.find? (·.1 == m)).map (·.2)
+def St.loaded (s : St) (m : MName) : Bool := s.mods.any (·.1 == m)
+def St.setMod (s : St) (m : MName) (ms : ModState) : St :=
   if s.loaded m then { s with mods := s.mods.map (fun p => if p.1 == m then (m, ms) else p) }
   else { s with mods := s.mods ++ [(m, ms)] }
 /-- bind `k := v` in module `m`'s namespace -/
-def St.bind (s : St) (m k : String) (v : Obj) : St :=
+def St.bind (s : St) (m : MName) (k : String) (v : Obj) : St :=
   match s.mod? m with
   | some ms => s.setMod m { ms with ns := nsSet ms.ns k v }
   | none => s
-def St.lookup (s : St) (m k : String) : Option Obj := (s.mod? m).bind (fun ms => nsGet ms.ns k)
+def St.lookup (s : St) (m : MName) (k : String) : Option Obj := (s.mod? m).bind (fun ms => nsGet ms.ns k)
 
-/-- dotted parent (`""` for a top-level name) and last segment -/
-def splitLast (n : String) : String × String :=
-  match (n.splitOn ".").reverse with
-  | [] => ("", n)
-  | [x] => ("", x)
-  | x :: rest => (".".intercalate rest.reverse, x)
+/-- parent package (`[]` for a top-level module) and last segment -/
+def splitLast (n : MName) : MName × String := (n.dropLast, n.getLastD "")
 
-def topSegment (n : String) : String := (n.splitOn ".").headD n
+def topSegment (n : MName) : String := n.headD ""
 
 inductive Frame where
   /-- import `target` unless already in `sys.modules` (its parent first) -/
-  | ensure (target : String)
+  | ensure (target : MName)
   /-- keep executing module `m`'s body -/
-  | exec (m : String) (rest : List Stmt)
+  | exec (m : MName) (rest : List Stmt)
   /-- `m`'s body is done: bind it as an attribute of its parent -/
-  | finish (m : String)
+  | finish (m : MName)
   /-- `target` is loaded: copy its public names into `m` -/
-  | afterStar (m : String) (target : String)
+  | afterStar (m : MName) (target : MName)
   /-- `target` is loaded (and the sub-modules among `names` have been tried): bind `names` in `m` -/
-  | afterFrom (m : String) (target : String) (names : List (String × String))
-  | afterImp (m : String) (target : String) (asName : Option String)
+  | afterFrom (m : MName) (target : MName) (names : List (String × String))
+  | afterImp (m : MName) (target : MName) (asName : Option String)
   deriving DecidableEq, Repr, Inhabited
 
 /-- the module a frame executes statements of / binds names in (`none` for `ensure`) -/
-def Frame.owner : Frame → Option String
+def Frame.owner : Frame → Option MName
   | .ensure _ => none
   | .exec m _ => some m
   | .finish m => some m
@@ -119,18 +121,18 @@ def step (g : Graph) (s : St) : List Frame → St × List Frame
     if s.loaded t then (s, fs)
     else
       let (p, _) := splitLast t
-      if p != "" && !s.loaded p then (s, .ensure p :: .ensure t :: fs)
+      if p != [] && !s.loaded p then (s, .ensure p :: .ensure t :: fs)
       else match g.src? t with
         | some src => (s.setMod t {}, .exec t src.body :: .finish t :: fs)
         | none =>
-          if t.startsWith "eolib" then ({ s with err := s.err.orElse (fun _ => some ("ModuleNotFoundError " ++ t)) }, fs)
+          if t.isEolib then ({ s with err := s.err.orElse (fun _ => some ("ModuleNotFoundError " ++ t.dotted)) }, fs)
           else (s.setMod t { ns := [] }, fs)   -- a module outside the package: opaque, already importable
   | .exec _ [] :: fs => (s, fs)
   | .exec m (st :: rest) :: fs =>
     match st with
     | .star t => (s, .ensure t :: .afterStar m t :: .exec m rest :: fs)
     | .fromImp t names =>
-      (s, .ensure t :: (names.map (fun nm => Frame.ensure (t ++ "." ++ nm.1))).filter
+      (s, .ensure t :: (names.map (fun nm => Frame.ensure (t ++ [nm.1]))).filter
             (fun f => match f with | .ensure x => (g.src? x).isSome | _ => false)
           ++ .afterFrom m t names :: .exec m rest :: fs)
     | .imp t a => (s, .ensure t :: .afterImp m t a :: .exec m rest :: fs)
@@ -141,10 +143,10 @@ def step (g : Graph) (s : St) : List Frame → St × List Frame
        | none => (s, .exec m rest :: fs))
     | .rebind k t =>
       if s.loaded t then (s.bind m k (.module t), .exec m rest :: fs)
-      else ({ s with err := s.err.orElse (fun _ => some ("KeyError " ++ t)) }, .exec m rest :: fs)
+      else ({ s with err := s.err.orElse (fun _ => some ("KeyError " ++ t.dotted)) }, .exec m rest :: fs)
   | .finish m :: fs =>
     let (p, last) := splitLast m
-    if p != "" then (s.bind p last (.module m), fs) else (s, fs)
+    if p != [] then (s.bind p last (.module m), fs) else (s, fs)
   | .afterStar m t :: fs =>
     match s.mod? t with
     | some ms => ((exported ms).foldl (fun acc (k, v) => acc.bind m k v) s, fs)
@@ -154,13 +156,13 @@ def step (g : Graph) (s : St) : List Frame → St × List Frame
         match acc.lookup t k with
         | some v => acc.bind m a v
         | none =>
-          if acc.loaded (t ++ "." ++ k) then acc.bind m a (.module (t ++ "." ++ k))
-          else if t.startsWith "eolib" then { acc with err := acc.err.orElse (fun _ => some ("ImportError " ++ t ++ "." ++ k)) }
-          else acc.bind m a (.ext (t ++ "." ++ k))) s, fs)
+          if acc.loaded (t ++ [k]) then acc.bind m a (.module (t ++ [k]))
+          else if t.isEolib then { acc with err := acc.err.orElse (fun _ => some ("ImportError " ++ (t ++ [k]).dotted)) }
+          else acc.bind m a (.ext (t ++ [k]).dotted)) s, fs)
   | .afterImp m t a :: fs =>
     match a with
-    | none => (s.bind m (topSegment t) (if t.startsWith "eolib" then .module (topSegment t) else .ext (topSegment t)), fs)
-    | some x => (s.bind m x (if t.startsWith "eolib" then .module t else .ext t), fs)
+    | none => (s.bind m (topSegment t) (if t.isEolib then .module [topSegment t] else .ext (topSegment t)), fs)
+    | some x => (s.bind m x (if t.isEolib then .module t else .ext t.dotted), fs)
 
 def run (g : Graph) : Nat → St × List Frame → St × List Frame
   | 0, c => c
@@ -168,17 +170,17 @@ def run (g : Graph) : Nat → St × List Frame → St × List Frame
   | n + 1, (s, fs) => run g n (step g s fs)
 
 /-- `import first` (then `import eolib`) in a fresh interpreter -/
-def eval (g : Graph) (first : String) (fuel : Nat) : St × List Frame :=
-  run g fuel ({}, [.ensure first, .ensure "eolib"])
+def eval (g : Graph) (first : MName) (fuel : Nat) : St × List Frame :=
+  run g fuel ({}, [.ensure first, .ensure ["eolib"]])
 
 /-- attribute access along a dotted path starting from `sys.modules[top]` -/
-def resolvePath (s : St) (path : String) : Option Obj :=
-  match path.splitOn "." with
+def resolvePath (s : St) (path : MName) : Option Obj :=
+  match path with
   | [] => none
   | top :: segs =>
     segs.foldl (fun (cur : Option Obj) seg =>
       match cur with
       | some (.module m) => s.lookup m seg
-      | _ => none) (if s.loaded top then some (.module top) else none)
+      | _ => none) (if s.loaded [top] then some (.module [top]) else none)
 
 end EoVerif.Imp
